@@ -8,10 +8,12 @@ numbering induced by the writer's renaming and compared inside Coq by the verifi
 problems.  Every disagreement is re-checked by an independent lock-step exploration through the real simulator.
 """
 import json
+import random
 import warnings
 
 from harness import iocheck as io
 from harness.gen.pddlgen import IoGenProblem, key_through, forward_plans, add_temporal, corpus_pddl, tt_plans, tt_rows
+from harness.gen.c18_families import ScopeGenProblem, scope_corpus, scope_keys, scope_tags
 
 META = {
     "level": "translation_validation",
@@ -22,6 +24,7 @@ META = {
 
 DEPTH_Q, CAP_Q = 4, 25
 DEPTH_T, CAP_T = 5, 40
+NSCOPE_Q, NSCOPE_T = 8, 60      # problems of the "names in scope" family (harness/gen/c18_families.py), on top of nprob
 
 
 _UNDEF = {}
@@ -98,6 +101,7 @@ def features(problem):
             tags.add("real-constant")
         elif x.is_int_constant() and x.constant_value() < 0:
             tags.add("negative-constant")
+    tags |= scope_tags(problem)
     for m in problem.quality_metrics:
         tags.add("metric:" + type(m).__name__)
     if problem.timed_effects:
@@ -123,13 +127,39 @@ def run(ctx):
     cases, owners = [], []
     generated = 0
     attempts = 0
-    hands = corpus_pddl()                       # hand-written corner problems first (not counted in nprob)
+    hands = corpus_pddl() + scope_corpus()      # hand-written corner problems first (not counted in nprob)
     stats["corner_corpus"] = [h.label for h in hands]
+    # "names in scope" family: quantified variables named like a parameter / another variable in scope.  Its problems
+    # come right after the corpus, are not counted in nprob and draw from their own seeded stream (the problems of the
+    # main stream are the same with and without them)
+    rng_main, rng_scope = ctx.rng, random.Random("C18-scope:%d" % ctx.seed)
+    nscope = NSCOPE_Q if ctx.quick else NSCOPE_T
+    scope_attempts = 0
+    stats["scope_family"] = {"generated": 0, "variable_names": {}}
     while (generated < nprob or hands) and attempts < nprob * 6:
         attempts += 1
+        rng = rng_main
         if hands:
             g, ai_friendly, temporal = hands.pop(0), True, False
             generated -= 1
+            if getattr(g, "family", None) == "scope":
+                rng = rng_scope
+        elif stats["scope_family"]["generated"] < nscope and scope_attempts < nscope * 6:
+            rng = rng_scope
+            attempts -= 1
+            scope_attempts += 1
+            ai_friendly = rng.random() < 0.45
+            temporal = not ai_friendly and rng.random() < 0.3
+            g = ScopeGenProblem(rng, ai_friendly=ai_friendly, plain_names=(ai_friendly and rng.random() < 0.5),
+                                bool_assign=rng.random() < 0.5, metrics=not temporal)
+            if not g.bad and temporal:
+                add_temporal(g, rng, "pddl")
+            if not g.bad:
+                generated -= 1
+                stats["scope_family"]["generated"] += 1
+                for kk, vv in g.scope_stats.items():
+                    stats["scope_family"]["variable_names"][kk] = stats["scope_family"]["variable_names"].get(kk, 0) + vv
+            temporal = False        # (already added; the main stream's counters below are not touched)
         else:
             ai_friendly = rng.random() < 0.45
             temporal = not ai_friendly and rng.random() < 0.3
@@ -151,7 +181,8 @@ def run(ctx):
             stats["features"][f] = stats["features"].get(f, 0) + 1
         empty_pre = ai_friendly or rng.random() < 0.3
         stats["empty_preconditions"] += empty_pre
-        payload = {"problem": str(P), "names": names, "empty_preconditions": empty_pre}
+        payload = {"problem": str(P), "names": names, "empty_preconditions": empty_pre,
+                   "family": getattr(g, "family", None), "corpus_label": getattr(g, "label", None)}
         try:
             with warnings.catch_warnings(record=True) as wlog:
                 warnings.simplefilter("always")
@@ -240,7 +271,8 @@ def run(ctx):
                              ["c18", "reader-" + rname, "tt-plan-round-trip"], dict(payload, reader=rname, tt_plan=bad), True)
                     break
             try:
-                case, info = io.build_case(P, Q, key_through(w.get_item_named), depth, cap, plans=pcs, split_intervals=True)
+                key_p, key_q = scope_keys(w.get_item_named)      # = key_identity / key_through, variables by (name, type)
+                case, info = io.build_case(P, Q, key_q, depth, cap, plans=pcs, keyP=key_p, split_intervals=True)
             except io.OutOfFragment as e:
                 stats["out_of_model"] += 1
                 ctx.fail("corr", "re-read problem is outside the modelled fragment: %s" % e, ["c18", "reader-" + rname, "out-of-model"] + sorted(feats),
@@ -253,7 +285,9 @@ def run(ctx):
             stats["metric_kinds"][info["metricP"]] = stats["metric_kinds"].get(info["metricP"], 0) + 1
             cases.append(case)
             owners.append({"P": P, "Q": Q, "w": w, "reader": rname, "type_name": w.get_pddl_name,
-                           "rebuild": (lambda P2, Q2, w=w: io.build_case(P2, Q2, key_through(w.get_item_named), depth, cap, split_intervals=True)[0]), "payload": payload, "info": info, "feats": feats, "nplans": len(plans)})
+                           "rebuild": (lambda P2, Q2, w=w: io.build_case(P2, Q2, scope_keys(w.get_item_named)[1], depth, cap,
+                                                                          keyP=scope_keys(w.get_item_named)[0], split_intervals=True)[0]),
+                           "payload": payload, "info": info, "feats": feats, "nplans": len(plans)})
     io.tick(ctx, "implementation runs")
     codes = ctx.coq_codes(cases, "Corr_C18.code", imports=io.IMPORTS, shard=8, label="c18") if cases else []
     io.tick(ctx, "coq")
